@@ -151,6 +151,7 @@ func NewHost() *Host {
 		}
 		return pd(tag, args...)
 	})
+	defineConvCallees(h) // host_conv.go
 	return h
 }
 
